@@ -17,14 +17,16 @@ CHECKS["C02"] = (
     "reverse, shift, distance) is compared with position-set semantics through one symbolic probe position and closed forms, "
     "for ALL integer coordinates of operands up to (2,1)/(1,2) blocks (quick; 2x2 for full-span, 3x2 for INNER distance) and "
     "(2,2),(3,1),(1,3) (thorough), all flag combinations, parents none/equal/mismatched (by id, sequence, sequence type, grand-parent); result normal form asserted; "
-    "every obligation also asserts both operands unchanged.",
+    "every obligation also asserts both operands unchanged."
+    " Round 7: both operands with 12 blocks (144 pairs) interleaving with a common period and an empty block placed anywhere; is_overlapping / merge_overlapping / optimize_and_combine_blocks asked of locations RETURNED by optimize_blocks / minus / union_preserve_overlaps.",
     _NOTE, "DESIGN.md §3 C02")
 CHECKS["C06"] = (
     _CH,
     "For every exon layout (<=2 exons quick, <=3 thorough) and every CDS window placement (driver-enumerated exon span, symbolic "
     "offsets) on both strands: chromosome/transcript/CDS conversions commute and invert, out-of-system positions are rejected, "
     "aa == cds//3 for all start frames, 5'UTR/CDS/3'UTR partition the exons in order (empty UTRs are values), introns == span minus exons."
-    " Also: interval conversions with relative strand MINUS (whole-length intervals included).",
+    " Also: interval conversions with relative strand MINUS (whole-length intervals included)."
+    " Round 7: conversions on a transcript after its gene's merged transcript / CDS / primary transcript were computed (aggregates leave members alone).",
     _NOTE, "DESIGN.md §3 C06")
 CHECKS["C16"] = (
     "src2smt: bins() translated from its AST to z3 integer terms at every run; z3 + cvc5 decide each query over all integers",
@@ -34,7 +36,8 @@ CHECKS["C16"] = (
     "(free variables), so the queries hold for every call history; constructor wiring (incl. chunk parents) and the CONSUMER - range queries of "
     "the real AnnotationCollection code against the exact bin terms, strict and relaxed, 2-isoform gene with a gap - are decided by CrossHair. "
     "Recorded deviations (F6a, F6b, F6e) are excluded by their exact regions and replayed on every run."
-    " Stored bins of gene/feature/collection objects are compared on the exact bin terms (wiring_exact_*), and a straddling 2-isoform gene with a later contained member is in the quick tier.",
+    " Stored bins of gene/feature/collection objects are compared on the exact bin terms (wiring_exact_*), and a straddling 2-isoform gene with a later contained member is in the quick tier."
+    " Round 7: members that are variant collections lying anywhere outside the hull of the genes, and members sharing a user-supplied guid, under exact bins.",
     "Trusted: z3 5.1 / cvc5 1.4 on LIA with div by constants; the translator (validated per run); the independent UCSC "
     "reference in harness/c16.py. If bins() leaves the translatable subset the SMT obligations are inconclusive and a "
     "concrete boundary-grid fallback (stated in evidence) is the only remaining detector.",
@@ -45,7 +48,8 @@ CHECKS["C14"] = (
     "faithful decoding are asserted on the record AND on str(BED12) read back by a 12-column reader through symbolic-token "
     "rendering, for all integer coordinates of <=3 (quick) / <=4 (thorough) block transcripts/features, coding (every exon "
     "sub-span) or not, both strands, chromosome mode, chunk-built chromosome mode and chunk-relative mode with a symbolic chunk "
-    "offset; adjacent blocks; 5'-partial CDSs (start frame 1/2); both modes asked of one object in either order.",
+    "offset; adjacent blocks; 5'-partial CDSs (start frame 1/2); both modes asked of one object in either order."
+    " Round 7: chunks placed on the MINUS strand (mirrored blocks and thick range, strand in chunk coordinates; defect found and repaired, f6a2b2a); name column across classes in one process.",
     _NOTE, "DESIGN.md §3 C14")
 CHECKS["C05"] = (
     _CH,
@@ -63,7 +67,8 @@ CHECKS["C15"] = (
     "triplet (16^3), aacodons partition, start/stop sets vs NCBI tables 1/11, complement tables (totality, IUPAC agreement, "
     "involution, case) as unsat z3 queries over tables read from the live modules; CDSFrame.shift laws for ALL integers, "
     "frame<->phase, strand group/order laws and the real Codon class on all 4096 IUPAC triplets by CrossHair; a held strict codon keeps every "
-    "answer after any other codon over ACGTU (either case) is constructed (singleton table isolation).",
+    "answer after any other codon over ACGTU (either case) is constructed (singleton table isolation)."
+    " Round 7: codon registry under pressure (all 4096 triplets + rejected strings); reverse complement of long mixed-case sequences at lengths 2^e-1..2^e+1.",
     "Trusted: Bio.Data.CodonTable / IUPACData as reference tables; z3 5.1 (cvc5 1.4 cross-check); CrossHair for the laws.",
     "DESIGN.md §3 C15")
 CHECKS["C18"] = (
@@ -73,7 +78,8 @@ CHECKS["C18"] = (
     "pair/triple of a 12-key catalogue; merge_qualifiers on every pair of catalogue dictionaries (union, sorted, no aliasing); the model-side "
     "merge (_merge_qualifiers / export_qualifiers of feature, transcript, CDS) on every pair of a 10-dictionary catalogue; "
     "gff3.parser.filter_and_sort_qualifiers on 3-subsets of a 25-key catalogue (exact reserved keys only). "
-    "The rank-0 override (F1) is excluded by its exact region and replayed.",
+    "The rank-0 override (F1) is excluded by its exact region and replayed."
+    " Round 7: reserved-key filter on consecutive dictionaries in a freshly loaded parser module (case variants in either order); GFF3 gene symbol / biotype / id priority through the real parser for every attribute order.",
     _NOTE + " The GenBank-record-permutation clause is outside the claim (module not importable here).",
     "DESIGN.md §3 C18")
 CHECKS["C03"] = (
@@ -92,7 +98,8 @@ CHECKS["C04"] = (
     "thorough): the i-th base of the lifted location equals the composition of the per-level point maps for a symbolic index i, "
     "strand = product. Chunk legs: symbolic chunk offset on either strand, lift down and back == intersection with the window, "
     "chunk-to-chunk re-lift; sequence preservation by identity and by type on tagged sequences at depth 2 and 3; missing ancestors refused."
-    " Also: lift-over through a placement of two OVERLAPPING blocks (length preserved, every child base covered; block order is the library's sorted normal form).",
+    " Also: lift-over through a placement of two OVERLAPPING blocks (length preserved, every child base covered; block order is the library's sorted normal form)."
+    " Round 7: a 20-block child through a two-block placement with the junction anywhere; lift-over by sequence identity on long named chromosomes differing in one base.",
     _NOTE, "DESIGN.md §3 C04")
 CHECKS["C07"] = (
     _CH,
@@ -104,7 +111,8 @@ CHECKS["C07"] = (
     "the chunk equal the in-window stretch; CDS never dropped while the transcript stays coding; a CDS with no base in the chunk has no "
     "chunk-relative codon; computed identifiers (real MD5) of feature/transcript/CDS/gene/collections equal across no parent / chromosome / chunk. "
     "F8b and F18 excluded by their exact regions."
-    " Also: every position conversion of a coding transcript on a cutting chunk equals the parent-less twin's; isoform CDSs with equal spans evaluated alternately on one chunk; the primary transcript/feature is the twin's. Block structure of the chunk view = chromosome blocks clipped to the window (touching blocks kept apart); codon windows by chromosome start/end on chunk-built CDSs list exactly the model codons inside window and chunk (defect found and repaired, a55c0c6); stop/start predicates and scan_codons of the chunk view.",
+    " Also: every position conversion of a coding transcript on a cutting chunk equals the parent-less twin's; isoform CDSs with equal spans evaluated alternately on one chunk; the primary transcript/feature is the twin's. Block structure of the chunk view = chromosome blocks clipped to the window (touching blocks kept apart); codon windows by chromosome start/end on chunk-built CDSs list exactly the model codons inside window and chunk (defect found and repaired, a55c0c6); stop/start predicates and scan_codons of the chunk view."
+    " Round 7: UTRs of chunk-built transcripts = chromosome UTR bases inside the window, on plus- and minus-strand chunks (defect found and repaired, 3b5d60d).",
     _NOTE, "DESIGN.md §3 C07")
 CHECKS["C08"] = (
     _CH + "; cvc5/z3 string queries over digest pre-image templates extracted from the real constructors",
@@ -115,7 +123,8 @@ CHECKS["C08"] = (
     "qualifier key/value insertion orders and set iteration orders (6x6x6, values differing only by case included); transcripts built from "
     "phases; pickle with none/chromosome/un-named chromosome/chunk parents and variant collections; schema+JSON load/dump with and without "
     "variants. F7 (VariantInterval pre-image without separator) recorded."
-    " Also: features with blocks sharing a start (exported lists = constructor lists); an exported dictionary is not consumed by importing it (imports twice to the same collection).",
+    " Also: features with blocks sharing a start (exported lists = constructor lists); an exported dictionary is not consumed by importing it (imports twice to the same collection)."
+    " Round 7: chunk-relative dictionary export re-imported on the chunk sequence alone (blocks, chunk-relative frames, protein); two same-named long genomes re-imported alternately through from_dict / pickle.",
     _NOTE + " MD5 collision freedom assumed; pickle's byte format and a process-level PYTHONHASHSEED sweep are outside the claim.",
     "DESIGN.md §3 C08")
 CHECKS["C13"] = (
@@ -156,7 +165,8 @@ CHECKS["C19"] = (
     "argument; boundary probes (zero-length requests, window == length, empty/duplicate children, codon-less CDS, 5000-block "
     "locations under the default recursion head-room, query ranges with unconstrained integers, 3-variant collections in any order). Post-condition: a well-formed value, or an exception from the allowed set "
     "(BioCantorException subclasses, ValueError, TypeError, NotImplementedError); any other exception is a counterexample."
-    " Also: invalid codon text refused on every request (no half-built singleton), and a single out-of-alphabet character at block edges (multiples of 1024) of a 196613-nt sequence.",
+    " Also: invalid codon text refused on every request (no half-built singleton), and a single out-of-alphabet character at block edges (multiples of 1024) of a 196613-nt sequence."
+    " Round 7: valid constructions ending at 2^e-1, 2^e, 2^e+1 (e = 14..31) with the real bins(); members re-parented by a collection refuse with documented errors only.",
     _NOTE, "DESIGN.md §3 C19")
 CHECKS["C11"] = (
     _CH + "; z3 queries over the live escape tables; the export->parse leg runs the real gffutils-based parser natively on realised inputs",
@@ -191,7 +201,8 @@ CHECKS["C10"] = (
     "children's dictionaries/qualifiers/blocks) is unchanged; reference answers come from a clean global Parent cache and a twin built after the "
     "schedule must agree with it (3-level hierarchies included). H1: with unbounded symbolic coordinates (overlapping/nested layouts included), "
     "after filling the hand-written lazy slots of a CompoundInterval every accessor answers as on an untouched twin."
-    " Also: Parent objects (sequence/strand/location/ancestry shapes) and interval-level lift-over to different ancestor types in the schedule catalogues.",
+    " Also: Parent objects (sequence/strand/location/ancestry shapes) and interval-level lift-over to different ancestor types in the schedule catalogues."
+    " Round 7: class-level codon registry (a CDS with a refused / accepted middle codon answers the same every time; each path its own text); members asked before being adopted by a collection on another parent (in-place re-parenting; stale-memo finding F19 recorded with its exact region).",
     _NOTE + " Histories longer than 3 operations and multi-threaded use are outside the claim.", "DESIGN.md §3 C10")
 for _p in []:
     NOT_APPLICABLE[_p] = "check not built yet (build in progress; see DESIGN.md §3 for the planned solver-based check)"
